@@ -26,6 +26,9 @@ pub struct Terminal {
     visible_cursor: usize,
     /// History list and file.
     history: TerminalHistory,
+    /// Injected keys, consumed instead of the real terminal.
+    #[cfg(lace_verif)]
+    verif_keys: Option<std::collections::VecDeque<Key>>,
 }
 
 /// All history information for `Terminal`.
@@ -46,7 +49,52 @@ impl Terminal {
             cursor: 0,
             visible_cursor: 0,
             history: TerminalHistory::new(),
+            #[cfg(lace_verif)]
+            verif_keys: None,
         }
+    }
+
+    /// Terminal without a TTY or history file: keys come from the injected queue.
+    #[cfg(lace_verif)]
+    pub fn verif_new(history: Vec<String>) -> Self {
+        let index = history.len();
+        Self {
+            stderr: io::stderr(),
+            buffer: String::with_capacity(INITIAL_BUFFER_CAPACITY),
+            cursor: 0,
+            visible_cursor: 0,
+            history: TerminalHistory {
+                list: history,
+                index,
+                file: None,
+            },
+            verif_keys: Some(std::collections::VecDeque::new()),
+        }
+    }
+    #[cfg(lace_verif)]
+    pub fn verif_push_keys(&mut self, keys: impl IntoIterator<Item = Key>) {
+        self.verif_keys
+            .get_or_insert_with(Default::default)
+            .extend(keys);
+    }
+    #[cfg(lace_verif)]
+    pub fn verif_handle_key(&mut self, key: Key) -> bool {
+        self.handle_key(key)
+    }
+    /// `(edited line, visible cursor, history index, history list)`
+    #[cfg(lace_verif)]
+    pub fn verif_view(&self) -> (String, usize, usize, Vec<String>) {
+        (
+            self.get_current().to_string(),
+            self.visible_cursor,
+            self.history.index,
+            self.history.list.clone(),
+        )
+    }
+    /// The reader's `read()`: next command of the current line, reading a new line when needed.
+    #[cfg(lace_verif)]
+    pub fn verif_read(&mut self) -> Option<String> {
+        Read::read(self).map(str::to_string)
     }
 
     /// Returns `true` if current line is a new line, rather than a focused history item.
@@ -219,6 +267,17 @@ impl Terminal {
 
     /// Read keys until newline.
     fn read_line_raw(&mut self) {
+        #[cfg(lace_verif)]
+        if self.verif_keys.is_some() {
+            loop {
+                let Some(key) = self.verif_keys.as_mut().and_then(|keys| keys.pop_front()) else {
+                    std::panic::panic_any(crate::verif::Stop::KeysExhausted);
+                };
+                if self.handle_key(key) {
+                    return; // EOL
+                }
+            }
+        }
         term::enable_raw_mode();
         loop {
             // Technically redrawing of prompt could be avoided, but this method makes it much
